@@ -4,6 +4,7 @@
 
 mod common;
 mod geom;
+mod p_struct;
 mod props;
 
 use std::path::PathBuf;
